@@ -224,12 +224,24 @@ def run(tier):
            for b in ("numba", "numpy") for f in ("values_first", "errors_first", "frame_first")]
     fin = fin + [it + (pl,) for it in fin for pl in ("hann", "bartlett") if it[4] != "errors_first" or tier == "thorough"]
     out = common.pmap(finite_scenario, fin, chunksize=8)
+    # one "finite" event per scenario, decided by InputTrace.tla (what was observed: counts of non-finite values)
+    ftr = []
     for it, probs in zip(fin, out):
         V.case({"finite": it}, True)
-        for clause, nm in probs:
-            V.violation(f"{PID}|finite|{clause}|{it[0]}|{it[1]}|{nm}|{it[4]}|{it[5] if len(it) > 5 else 'N64'}",
-                        {"kind": "finite_scenario", "item": it, "clause": clause, "name": nm,
-                         "message": f"{clause}: attribute {nm} for {it[0]} {it[1]} record, order={it[2]}, backend={it[3]}, access order {it[4]}"})
+        ftr.append({"meta": {"item": list(it), "probs": [list(p) for p in probs]}, "c": {},
+                    "ev": [{"t": "finite", "nf": sum(1 for c_, _ in probs if c_.startswith("non_finite_output")),
+                            "pc": sum(1 for c_, _ in probs if c_.startswith("non_finite_error_bar")),
+                            "lmin": 0 if any(c_.startswith("harness_expected") for c_, _ in probs) else 1}]})
+    fvd, fres = traces.validate("InputTrace", f"{PID}_finite", ftr, constants=dict(SanitiseInPlace=False, NLen=4, EmitCases=False), spec="TSpec")
+    V.model(fres, "InputTrace.tla (finite records: non-finite outputs counted per scenario)")
+    V.add("traces_validated_against_impl", len(ftr))
+    for t, v in zip(ftr, fvd):
+        it = t["meta"]["item"]
+        for (l, clause) in v:
+            names = sorted({nm for c_, nm in t["meta"]["probs"]})
+            V.violation(f"{PID}|finite|{clause}|{it[0]}|{it[1]}|{names[0] if names else ''}|{it[4]}|{it[5] if len(it) > 5 else 'N64'}",
+                        {"kind": "finite_scenario", "item": it, "clause": clause, "names": names,
+                         "message": f"{clause}: attributes {names} for {it[0]} {it[1]} record, order={it[2]}, backend={it[3]}, access order {it[4]}, plan {it[5] if len(it) > 5 else 'N64'}: {t['meta']['probs'][:4]}"})
     V.assumptions += ["bitwise comparison with the zero-filled canonical run is made on the same backend and order (same machine code)",
                       "cf_db = -inf at zero coupling is the documented value of 20*log10(0) and is not counted as a non-finite output"]
     return V.finish(rule="scenarios = terminal states of Input.tla (layout x dtype x memory order x non-finite kind x positions) x orders x backends, plus finite degenerate records x access orders; all distinct by content; non-trivial = all")
